@@ -3,6 +3,7 @@ package c04
 import (
 	"fmt"
 	"math"
+	"math/big"
 	"math/rand"
 	"reflect"
 	"sort"
@@ -27,6 +28,7 @@ type pnode struct {
 	rseg   string // last segment of rpath
 	mode   string // merge mode in force at this node: tag option of the nearest field, else the global option
 	global string // top node: the merge option passed to Unpack ("" none)
+	vopt   string // top node: name passed as ValidatorTag option ("" = option not given)
 	shape  string // shape reported for a fault at this position
 	sshape string // struct-like nodes: shape of the plain fields inside
 	key    string // map entries
@@ -88,10 +90,14 @@ type dom struct {
 	hasHi  bool
 	nz     bool
 	bounds []float64 // boundary values named by validators (inclusive bounds are valid)
+	tags   []vtag    // the validators the domain was built from
+	// edge: a bound lies beyond 2^53; values are then drawn from a list of
+	// candidates and compared exactly
+	edge bool
 }
 
 func intrinsic(k kind) (lo, hi float64, hasLo, hasHi bool) {
-	switch k {
+	switch k.base() {
 	case kUint:
 		return 0, 0, true, false
 	case kPort:
@@ -103,7 +109,7 @@ func intrinsic(k kind) (lo, hi float64, hasLo, hasHi bool) {
 }
 
 func boundOf(k kind, param string) float64 {
-	if k == kDur {
+	if k.base() == kDur {
 		b, _ := parseBound(param, true)
 		return b / float64(time.Second)
 	}
@@ -134,6 +140,7 @@ func (d dom) with(vals []vtag) dom {
 		}
 	}
 	for _, v := range vals {
+		d.tags = append(d.tags, v)
 		switch v.name {
 		case "required", "nonzero":
 			d.nz = true
@@ -144,13 +151,190 @@ func (d dom) with(vals []vtag) dom {
 			b := boundOf(k, v.param)
 			raise(b)
 			d.bounds = append(d.bounds, b)
+			d.edge = d.edge || isEdge(v.param)
 		case "max":
 			b := boundOf(k, v.param)
 			lower(b)
 			d.bounds = append(d.bounds, b)
+			d.edge = d.edge || isEdge(v.param)
 		}
 	}
 	return d
+}
+
+// ---------------------------------------------------------------------------
+// values at the edge of a kind's range
+
+func kindLimits(k kind) (lo, hi *big.Int) {
+	bits, unsigned := 0, false
+	switch k {
+	case kInt:
+		bits = strconv.IntSize
+	case kInt64:
+		bits = 64
+	case kInt32:
+		bits = 32
+	case kInt8:
+		bits = 8
+	case kUint:
+		bits, unsigned = strconv.IntSize, true
+	case kUint64:
+		bits, unsigned = 64, true
+	case kUint32:
+		bits, unsigned = 32, true
+	case kUint8:
+		bits, unsigned = 8, true
+	default:
+		return nil, nil
+	}
+	one := big.NewInt(1)
+	if unsigned {
+		return big.NewInt(0), new(big.Int).Sub(new(big.Int).Lsh(one, uint(bits)), one)
+	}
+	h := new(big.Int).Lsh(one, uint(bits-1))
+	return new(big.Int).Neg(h), new(big.Int).Sub(h, one)
+}
+
+// typed turns an integer into the value representation of the plans: int64
+// where it fits, uint64 above.
+func typed(x *big.Int) interface{} {
+	if x.IsInt64() {
+		return x.Int64()
+	}
+	return x.Uint64()
+}
+
+func bigOf(v interface{}) *big.Int {
+	switch x := v.(type) {
+	case int64:
+		return big.NewInt(x)
+	case uint64:
+		return new(big.Int).SetUint64(x)
+	}
+	return nil
+}
+
+// edgeValues lists values at and next to the limits of the kind's range (and
+// the places where a narrower or differently signed representation ends).
+func edgeValues(k kind) []interface{} {
+	var out []interface{}
+	if lo, hi := kindLimits(k); lo != nil {
+		seen := map[string]bool{}
+		add := func(x *big.Int) {
+			if x.Cmp(lo) < 0 || x.Cmp(hi) > 0 || seen[x.String()] {
+				return
+			}
+			seen[x.String()] = true
+			out = append(out, typed(x))
+		}
+		one := big.NewInt(1)
+		add(lo)
+		add(new(big.Int).Add(lo, one))
+		add(hi)
+		add(new(big.Int).Sub(hi, one))
+		for _, sh := range []uint{7, 8, 31, 32, 53, 63} {
+			p := new(big.Int).Lsh(one, sh)
+			add(p)
+			add(new(big.Int).Add(p, one))
+			add(new(big.Int).Sub(p, one))
+			add(new(big.Int).Neg(p))
+			add(new(big.Int).Sub(new(big.Int).Neg(p), one))
+		}
+		return out
+	}
+	switch k {
+	case kFloat:
+		return []interface{}{1e18, -1e18, 1e300, -1e300, 9007199254740992.0, 1e-300}
+	case kFloat32:
+		return []interface{}{1e30, -1e30, 16777217.0}
+	case kDur:
+		return []interface{}{2562047 * time.Hour, -2562047 * time.Hour, 1000 * time.Hour, -1000 * time.Hour}
+	}
+	return nil
+}
+
+// isEdgeValue: the value lies outside the range ordinary plans draw from.
+func isEdgeValue(v interface{}) bool {
+	switch x := v.(type) {
+	case uint64:
+		return true
+	case int64:
+		return x > 100000 || x < -100000
+	case float64:
+		return math.Abs(x) > 100000 || x != 0 && math.Abs(x) < 0.25
+	case time.Duration:
+		return x > 100*time.Hour || x < -100*time.Hour
+	}
+	return false
+}
+
+// exactOK: the value satisfies every validator of the domain (integers are
+// compared exactly, everything else lies far from its bounds).
+func (d dom) exactOK(v interface{}) bool {
+	for _, t := range d.tags {
+		if !tagHolds(d.k, v, t) {
+			return false
+		}
+	}
+	return true
+}
+
+func tagHolds(k kind, v interface{}, t vtag) bool {
+	if x := bigOf(v); x != nil {
+		switch t.name {
+		case "required", "nonzero":
+			return x.Sign() != 0
+		case "positive":
+			return x.Sign() >= 0
+		case "min", "max":
+			if b, ok := new(big.Int).SetString(t.param, 10); ok {
+				if t.name == "min" {
+					return x.Cmp(b) >= 0
+				}
+				return x.Cmp(b) <= 0
+			}
+		}
+	}
+	return tagOnly(k, t).okValue(v)
+}
+
+// candidates: the values an edge domain draws from.
+func (d dom) candidates() []interface{} {
+	out := edgeValues(d.k)
+	lo, hi := kindLimits(d.k)
+	if lo == nil {
+		return out
+	}
+	add := func(x *big.Int) {
+		if x.Cmp(lo) >= 0 && x.Cmp(hi) <= 0 {
+			out = append(out, typed(x))
+		}
+	}
+	for _, t := range d.tags {
+		if b, ok := new(big.Int).SetString(t.param, 10); ok && (t.name == "min" || t.name == "max") {
+			for _, delta := range []int64{-2, -1, 0, 1, 2} {
+				add(new(big.Int).Add(b, big.NewInt(delta)))
+			}
+		}
+	}
+	for _, x := range []int64{-40, -3, 0, 1, 7, 40, 1000} {
+		add(big.NewInt(x))
+	}
+	return out
+}
+
+// pickFrom draws one of the values keep accepts.
+func pickFrom(r *rand.Rand, vals []interface{}, keep func(interface{}) bool) (interface{}, bool) {
+	var ok []interface{}
+	for _, v := range vals {
+		if keep(v) {
+			ok = append(ok, v)
+		}
+	}
+	if len(ok) == 0 {
+		return nil, false
+	}
+	return ok[r.Intn(len(ok))], true
 }
 
 func (d dom) ok(x float64) bool {
@@ -161,7 +345,7 @@ func (d dom) ok(x float64) bool {
 }
 
 func canon(k kind, x float64) interface{} {
-	switch k {
+	switch k.base() {
 	case kFloat:
 		return x
 	case kDur:
@@ -177,11 +361,23 @@ var goodStrings = []string{"x", "abc", "web-1", "some value", "ü", "0", "false"
 // valid draws a value that clearly satisfies the domain: an interior value, or
 // (one in four) an exact bound, which the documentation declares inclusive.
 func (d dom) valid(r *rand.Rand) interface{} {
-	if d.k == kString {
+	if d.k.base() == kString {
 		if !d.nz && r.Intn(6) == 0 {
 			return ""
 		}
 		return goodStrings[r.Intn(len(goodStrings))]
+	}
+	if d.edge {
+		if v, ok := pickFrom(r, d.candidates(), d.exactOK); ok {
+			return v
+		}
+		return int64(1) // (never happens for the bounds drawn; the model would reject the plan)
+	}
+	// one value in eight lies at the edge of the kind's range
+	if r.Intn(8) == 0 {
+		if v, ok := pickFrom(r, edgeValues(d.k), func(v interface{}) bool { return d.okValue(v) }); ok {
+			return v
+		}
 	}
 	if len(d.bounds) > 0 && r.Intn(4) == 0 {
 		if b := d.bounds[r.Intn(len(d.bounds))]; d.ok(b) {
@@ -198,7 +394,7 @@ func (d dom) valid(r *rand.Rand) interface{} {
 	if !d.hasHi {
 		hi = lo + 70
 	}
-	if d.k == kPort && r.Intn(2) == 0 {
+	if d.k.base() == kPort && r.Intn(2) == 0 {
 		for _, p := range []float64{80, 443, 8080, 9200, 65535, 1} {
 			if d.ok(p) && r.Intn(3) == 0 {
 				return canon(d.k, p)
@@ -210,7 +406,7 @@ func (d dom) valid(r *rand.Rand) interface{} {
 	}
 	for try := 0; try < 40; try++ {
 		x := math.Ceil(lo) + float64(r.Intn(int(math.Floor(hi)-math.Ceil(lo))+1))
-		if (d.k == kFloat || d.k == kDur) && r.Intn(2) == 0 && x+0.5 <= hi {
+		if (d.k.base() == kFloat || d.k == kDur) && r.Intn(2) == 0 && x+0.5 <= hi {
 			x += 0.5
 		}
 		if d.ok(x) {
@@ -222,7 +418,7 @@ func (d dom) valid(r *rand.Rand) interface{} {
 
 // elemValue: values of collection elements are small, positive and non-zero.
 func elemValue(r *rand.Rand, k kind) interface{} {
-	switch k {
+	switch k.base() {
 	case kString:
 		return goodStrings[r.Intn(len(goodStrings)-2)]
 	case kPort:
@@ -240,8 +436,25 @@ func elemValue(r *rand.Rand, k kind) interface{} {
 func (d dom) bad(r *rand.Rand, v vtag) (interface{}, bool) {
 	lo, hi, hasLo, hasHi := intrinsic(d.k)
 	step := 1.0
-	if d.k == kFloat || d.k == kDur {
+	if d.k.base() == kFloat || d.k == kDur {
 		step = 0.5
+	}
+	// a value at the edge of the kind's range that breaks v: always for an edge
+	// bound, one time in three otherwise
+	if v.name == "min" || v.name == "max" || v.name == "positive" {
+		edge := isEdge(v.param)
+		if edge || r.Intn(3) == 0 {
+			vals := edgeValues(d.k)
+			if edge {
+				vals = dom{k: d.k, tags: []vtag{v}}.candidates()
+			}
+			if x, ok := pickFrom(r, vals, func(x interface{}) bool { return !tagHolds(d.k, x, v) }); ok {
+				return x, true
+			}
+		}
+		if edge {
+			return nil, false
+		}
 	}
 	switch v.name {
 	case "min":
@@ -265,7 +478,7 @@ func (d dom) bad(r *rand.Rand, v vtag) (interface{}, bool) {
 		}
 		return canon(d.k, x), true
 	case "positive":
-		if d.k == kUint {
+		if d.k.base() == kUint {
 			return nil, false
 		}
 		if step < 1 && r.Intn(2) == 0 {
@@ -275,7 +488,7 @@ func (d dom) bad(r *rand.Rand, v vtag) (interface{}, bool) {
 	case "nonzero":
 		return canon(d.k, 0), true
 	case "Validate":
-		switch d.k {
+		switch d.k.base() {
 		case kPort:
 			return int64([]int{0, 70000, 65536}[r.Intn(3)]), true
 		case kLevel, kDefLevel, kDefBad:
@@ -298,6 +511,8 @@ func initValue(k kind) interface{} {
 func asFloat(v interface{}) float64 {
 	switch x := v.(type) {
 	case int64:
+		return float64(x)
+	case uint64:
 		return float64(x)
 	case float64:
 		return x
@@ -459,7 +674,7 @@ func (n *pnode) clear() { n.inCfg, n.inPre, n.cfgNull, n.viaVar = false, false, 
 // fixLib makes the cross-field conditions of Range and Pair hold.
 func (g *pgen) fixLib(n *pnode, s *tnode) {
 	switch s.lib {
-	case "Range":
+	case "Range", "URange":
 		lo, hi := n.kids[0], n.kids[1]
 		lv, hv := int64(1+g.r.Intn(3)), int64(7+g.r.Intn(3))
 		lo.cfgVal, lo.preVal = lv, lv
@@ -820,6 +1035,23 @@ func (n *pnode) clone(parent *pnode, m map[*pnode]*pnode) *pnode {
 	return &c
 }
 
+// retarget copies a plan onto the twin of its type.
+func retarget(n *pnode, parent *pnode, m twinMaps) *pnode {
+	c := *n
+	c.parent = parent
+	if t, ok := m.t[n.t]; ok {
+		c.t = t
+	}
+	if f, ok := m.f[n.f]; ok {
+		c.f = f
+	}
+	c.kids = make([]*pnode, len(n.kids))
+	for i, k := range n.kids {
+		c.kids[i] = retarget(k, &c, m)
+	}
+	return &c
+}
+
 // repath recomputes the paths below n from the segments.
 func repath(n *pnode) {
 	for _, k := range n.kids {
@@ -856,7 +1088,7 @@ func encode(k kind, v interface{}, form int) interface{} {
 	case float64:
 		switch form {
 		case 2:
-			if x == math.Trunc(x) {
+			if x == math.Trunc(x) && math.Abs(x) < 1<<62 {
 				return int(x)
 			}
 		case 3:
@@ -885,7 +1117,15 @@ func encode(k kind, v interface{}, form int) interface{} {
 		case 3:
 			return strconv.FormatInt(x, 10)
 		}
+		if int64(int(x)) != x {
+			return x
+		}
 		return int(x)
+	case uint64: // values above MaxInt64
+		if form == 3 {
+			return strconv.FormatUint(x, 10)
+		}
+		return x
 	}
 	return v
 }
